@@ -658,3 +658,157 @@ fn c02_opt_fail() {
         assert!(Opt::Essential.fail(x, f) == Err(x.wrapping_add(1)) && unsafe { CALLS } == 1);
     }
 }
+
+// ------------------------------------------------------------------------------------------
+// C09 / C08: the operator dispatch tables of ops.rs
+// ------------------------------------------------------------------------------------------
+/// a value whose arithmetic records which operator was applied to which operands, in order
+#[derive(Clone, Copy, PartialEq, Eq)]
+struct Tagged(i64);
+macro_rules! tagged_op {
+    ($t:ident, $m:ident, $tag:expr) => {
+        impl core::ops::$t for Tagged {
+            type Output = (u8, i64, i64);
+            fn $m(self, r: Self) -> (u8, i64, i64) {
+                ($tag, self.0, r.0)
+            }
+        }
+    };
+}
+tagged_op!(Add, add, b'+');
+tagged_op!(Sub, sub, b'-');
+tagged_op!(Mul, mul, b'*');
+tagged_op!(Div, div, b'/');
+tagged_op!(Rem, rem, b'%');
+
+/// `Math::run` applies the operator its name says to `(l, r)` in that order, and `as_str` is the
+/// manual's symbol, for every operator and all operands
+#[kani::proof]
+fn c09_math_dispatch() {
+    let (l, r): (i64, i64) = kani::any();
+    let op = any_math();
+    let sym = match op {
+        Math::Add => b'+',
+        Math::Sub => b'-',
+        Math::Mul => b'*',
+        Math::Div => b'/',
+        Math::Rem => b'%',
+    };
+    assert!(op.run(Tagged(l), Tagged(r)) == (sym, l, r));
+    assert!(op.as_str().as_bytes() == [sym]);
+}
+
+/// `Cmp::run` is the comparison its name says, on any ordered type (here all pairs of i64), and
+/// `as_str` is the manual's symbol (one concrete operator per call: a symbolic choice among
+/// string constants of different lengths makes the slice comparison expensive)
+fn cmp_case(op: Cmp, l: i64, r: i64, want: bool, sym: &str) {
+    assert!(op.run(&l, &r) == want);
+    assert!(op.as_str().len() == sym.len() && op.as_str().as_bytes()[0] == sym.as_bytes()[0]);
+    assert!(sym.len() == 1 || op.as_str().as_bytes()[1] == sym.as_bytes()[1]);
+}
+#[kani::proof]
+fn c08_cmp_dispatch() {
+    let (l, r): (i64, i64) = kani::any();
+    kani::cover!(l == r);
+    cmp_case(Cmp::Lt, l, r, l < r, "<");
+    cmp_case(Cmp::Le, l, r, l <= r, "<=");
+    cmp_case(Cmp::Gt, l, r, l > r, ">");
+    cmp_case(Cmp::Ge, l, r, l >= r, ">=");
+    cmp_case(Cmp::Eq, l, r, l == r, "==");
+    cmp_case(Cmp::Ne, l, r, l != r, "!=");
+}
+
+// ------------------------------------------------------------------------------------------
+// C01: multi-valued path arguments are combined in the documented nesting order
+// ------------------------------------------------------------------------------------------
+use crate::path::{Opt, Part, Path};
+
+/// the outputs of a multi-valued sub-filter: 1..=n tagged with `base`
+fn outs(base: u8, n: u8) -> Vec<u8> {
+    (0..n).map(|k| base + k).collect()
+}
+/// `Part::into_iter` on `.[y:z]` with multi-valued bounds enumerates `y as $y | z as $z | ...`:
+/// `y` in the outer loop, `z` in the inner one; `.[x]`, `.[y:]`, `.[:z]` follow their single
+/// argument.  Shapes (0..=2 outputs per bound) enumerated concretely.
+#[kani::proof]
+#[kani::unwind(6)]
+fn c01_range_bounds_order() {
+    let mut ny = 0;
+    while ny <= 2 {
+        let mut nz = 0;
+        while nz <= 2 {
+            let mut it = Part::Range(Some(outs(10, ny)), Some(outs(20, nz))).verif_into_iter();
+            let mut a = 0;
+            while a < ny {
+                let mut b = 0;
+                while b < nz {
+                    assert!(matches!(it.next(), Some(Part::Range(Some(y), Some(z))) if y == 10 + a && z == 20 + b));
+                    b += 1;
+                }
+                a += 1;
+            }
+            assert!(it.next().is_none());
+            nz += 1;
+        }
+        // single-argument forms
+        let mut it = Part::Index(outs(10, ny)).verif_into_iter();
+        let mut a = 0;
+        while a < ny {
+            assert!(matches!(it.next(), Some(Part::Index(x)) if x == 10 + a));
+            a += 1;
+        }
+        assert!(it.next().is_none());
+        let mut it = Part::Range(Some(outs(10, ny)), None).verif_into_iter();
+        let mut a = 0;
+        while a < ny {
+            assert!(matches!(it.next(), Some(Part::Range(Some(y), None)) if y == 10 + a));
+            a += 1;
+        }
+        assert!(it.next().is_none());
+        let mut it = Part::Range(None, Some(outs(20, ny))).verif_into_iter();
+        let mut a = 0;
+        while a < ny {
+            assert!(matches!(it.next(), Some(Part::Range(None, Some(z))) if z == 20 + a));
+            a += 1;
+        }
+        assert!(it.next().is_none());
+        ny += 1;
+    }
+    let mut it = Part::<Vec<u8>>::Range(None, None).verif_into_iter();
+    assert!(matches!(it.next(), Some(Part::Range(None, None))) && it.next().is_none());
+}
+
+/// `Path::explode` on `.[x][y]` with multi-valued `x`, `y` enumerates `x as $x | y as $y | ...`:
+/// earlier path parts vary slowest, and the `?` marks stay attached to their parts
+#[kani::proof]
+#[kani::unwind(6)]
+fn c01_path_parts_order() {
+    let mut nx = 0;
+    while nx <= 2 {
+        let mut ny = 0;
+        while ny <= 2 {
+            let ok = |v: Vec<u8>| -> Vec<Result<u8, u8>> { v.into_iter().map(Ok).collect() };
+            let p = Path(Vec::from([(Part::Index(ok(outs(10, nx))), Opt::Optional), (Part::Index(ok(outs(20, ny))), Opt::Essential)]));
+            let mut it = p.explode();
+            let mut a = 0;
+            while a < nx {
+                let mut b = 0;
+                while b < ny {
+                    match it.next() {
+                        Some(Ok(Path(parts))) => {
+                            assert!(parts.len() == 2);
+                            assert!(matches!(&parts[0], (Part::Index(x), Opt::Optional) if *x == 10 + a));
+                            assert!(matches!(&parts[1], (Part::Index(y), Opt::Essential) if *y == 20 + b));
+                        }
+                        _ => assert!(false),
+                    }
+                    b += 1;
+                }
+                a += 1;
+            }
+            assert!(it.next().is_none());
+            ny += 1;
+        }
+        nx += 1;
+    }
+}
